@@ -10,7 +10,8 @@ import ShVerif.Model.C13IsPrint
   * `encodeRune` mirrors `utf8.AppendRune` (`strings.Builder.WriteRune`).
   * `isPrint` is `unicode.IsPrint` as a range table (Model/C13IsPrint.lean, checked against the
     toolchain on every run).
-  * `langIn l m` is `LangVariant.in`: `l&m == l` — note that the legacy zero value is "in" every set.
+  * `langIn l m` is `LangVariant.in`: `l&m == l` — the legacy zero value is "in" every set, which is
+    why Quote first maps it to LangBash (`quote` = guard + `quoteCore`).
 -/
 namespace ShVerif.C13
 
@@ -245,8 +246,8 @@ def dqBody : List Tok → Bytes
     (if t.r = 0x22 ∨ t.r = 0x5c ∨ t.r = 0x60 ∨ t.r = 0x24 then [0x5c] else []) ++
       encodeRune t.r ++ dqBody ts
 
-/-- `syntax.Quote(s, l)`. -/
-def quote (l : Lang) (s : Bytes) : Except QErr Bytes :=
+/-- The body of `syntax.Quote` after the legacy-zero guard, for an arbitrary bit set `l`. -/
+def quoteCore (l : Lang) (s : Bytes) : Except QErr Bytes :=
   if s = [] then .ok [0x27, 0x27]
   else
     let ts := runes s
@@ -260,6 +261,9 @@ def quote (l : Lang) (s : Bytes) : Except QErr Bytes :=
         | .ok body => .ok ([0x24, 0x27] ++ body ++ [0x27])
       else if !s.contains 0x27 then .ok ([0x27] ++ s ++ [0x27])
       else .ok ([0x22] ++ dqBody ts ++ [0x22])
+
+/-- `syntax.Quote(s, l)`: `if lang == langBashLegacy { lang = LangBash }`, then the body. -/
+def quote (l : Lang) (s : Bytes) : Except QErr Bytes := quoteCore (resolve l) s
 
 /-! ## expand.Format with nil arguments (`$'…'` escapes; formatInto with `args == nil`) -/
 
@@ -518,7 +522,8 @@ def specFails (l : Lang) (s : Bytes) : Bool :=
   (resolve l == langPOSIX && (runes s).any fun t => nonPrint t.r) ||
   (resolve l == langMksh && (runes s).any fun t => t.r > 0xFFFD && !isPrint t.r)
 
-/-- What the code does instead (`lang.in(...)` is true of the zero value for every set). -/
+/-- The same set phrased with `LangVariant.in`, as the body of Quote tests it, for an arbitrary
+    bit set (`lang.in(...)` is true of the zero value for every set — hence the guard in `quote`). -/
 def codeFails (l : Lang) (s : Bytes) : Bool :=
   s.contains 0x00 ||
   (langIn l langPOSIX && (runes s).any fun t => nonPrint t.r) ||
